@@ -65,6 +65,28 @@ theorem holdsTop_of_truthy_ff (Γ : Nat → FieldTy) (ρ : Nat → Int) (a b : N
   simp only [HoldsTop, fieldOf]
   exact (field_field_reading Γ ρ a b op hop hwa hwb hs ha hb).1 h
 
+/-- **A part-select never bounds the field it selects from.**  A comparison whose one side is a
+    part-select (`a[3:0] <= 4`, `b[7:4] == 3`) and whose other side is not a plain field registers no
+    propagator at all: the visitor's state - domains, propagators, error flag - is what it was.
+    (`Expr2FieldVisitor` answers "no field" for a part-select; resolving one that is anchored at bit 0
+    or at the msb to the whole field would make the inferred range drop feasible values.) -/
+theorem visitTop_partselect (Γ : Nat → FieldTy) (ρ : Nat → Int) (st : St) (op : BinOp) (e r : Expr) (hi lo : Nat)
+    (hr : fieldOf r = none) :
+    visitTop Γ ρ st (.cmp op (.psel e hi lo) r) = st ∧ visitTop Γ ρ st (.cmp op r (.psel e hi lo)) = st := by
+  have hp : fieldOf (.psel e hi lo) = none := rfl
+  constructor <;> simp only [visitTop, hp, hr]
+
+/-- ... and against a plain field `b` the only thing that can happen is what happens for any
+    non-field operand: if the part-select is over non-random fields its *value* bounds `b`; a
+    part-select of a random field leaves the state alone -/
+theorem visitTop_partselect_of_random (Γ : Nat → FieldTy) (ρ : Nat → Int) (st : St) (op : BinOp) (a b : Nat) (hi lo : Nat)
+    (ha : (Γ a).rand = true) :
+    visitTop Γ ρ st (.cmp op (.psel (.fld a) hi lo) (.fld b)) = st := by
+  have hp : fieldOf (.psel (.fld a) hi lo) = none := rfl
+  have hb : fieldOf (.fld b) = some b := rfl
+  simp only [visitTop, hp, hb, isNonRand, ha]
+  simp
+
 example : truthy (fun _ => ⟨4, false, true⟩) (fun i => if i = 0 then 3 else 9) (.bin .lt (.fld 0) (.fld 1)) = true := by decide
 
 end Pyvsc.C14
